@@ -215,7 +215,7 @@ PROPS["C04"] = dict(
 PROPS["C05"] = dict(
     title="A follower table always equals the leader table at its recorded leader index",
     design_ref="DESIGN.md section 7 (C05)",
-    run_files=["Run/C05Run.v", "Mutants/ReplicationMutants.v"],
+    run_files=["Run/C05Run.v", "Mutants/ReplicationMutants.v", "Mutants/PipelineMutants.v"],
     engines=[dict(cmd=["c05"], corr="Model.Replication.follows (the proposals a worker may make: Model.Replication.step/propose) <-> the follower table's own raft log produced by replication.worker against regattaserver.LogServer/SnapshotServer", timeout=1800),
              dict(cmd=["c05multi"], summary="c05multi", corr="Model.Replication guard (a poll acts on the follower's current leader index) <-> replication.worker.tableState on a three-node follower cluster with a lagging replica taking over the lease", timeout=900)],
     level_text="Theorems, generic in the table state machine (so non-idempotent transactions and range deletes are covered): for every interleaving of leader writes, leader log compactions, worker polls (any number of entries delivered, any chunking into proposals) and snapshot recoveries the follower's content equals the leader's content as of the recorded leader index - every leader entry exactly once, in leader order; the index never moves backwards and what it denotes never changes; a served poll makes progress, a complete stream or a recovery reaches the leader's latest state; a follower log accepted by [follows] is explained by the model. Full system in one process (real leader and follower storage.Engine, real gRPC replication services with the cached log reader, real replication.Manager/worker): random histories while replicating, compacted leader log (snapshot recovery), small message limit, follower engine restart; every 2 ms sample (leader index, content) of the follower is compared with a reference replay of the leader's raft log at exactly that index; the follower's own raft log is validated against the model in Coq and, on the Go side, against 'each leader command once, in leader order'; variants incl. a second reader that filled the leader's log cache ahead of the follower; the table set (reconcileTables: theorem 'after a reconciliation the follower has exactly the leader's tables', compared at every settling point) is followed down to no table at all. One poll end to end (Model/Pipeline.v, theorem C05_poll_is_the_stream_consumed): the stream of C06 - over any reader service, cached or not, whose single answers are exact - consumed by worker.do/proposeBatch (messages cut into proposals anywhere, each tagged with the leader index the stream attached to its last command) applies exactly the leader's entries r+1..applied once and in order and records leader index applied: it IS the abstract poll of Model/Replication.v.",
